@@ -2,7 +2,7 @@
 C01 — integer expressions have the C11 value and the C11 type.
 
 Property theorems only (definitions and helper lemmas: Model/C01Expr, Lemmas/C01Lemmas, C01OpLemmas, C01ArithLemmas,
-C01Select, C01MemLemmas, C01Compose, C01Frame, C01Value).
+C01Select, C01MemLemmas, C01Compose, C01Frame, C01Value, C01Effects, C01Machine, C01EffectsValue).
 
 Objects:
 * `Gen.CommonType.getCommonType`, `opRule`  — regenerated from type.c on every check (translator);
@@ -18,6 +18,7 @@ Every theorem is for all register contents (2^64 each) / all operand values, not
 import ChibiVerif.Lemmas.C01Select
 import ChibiVerif.Lemmas.C01Compose
 import ChibiVerif.Lemmas.C01Value
+import ChibiVerif.Lemmas.C01EffectsValue
 
 namespace ChibiVerif.Props.C01
 open ChibiVerif.C01 ChibiVerif.X86 ChibiVerif.Asm ChibiVerif.Spec.IntSpec ChibiVerif.Gen.CommonType ChibiVerif.C01Codegen
@@ -227,6 +228,46 @@ theorem C01_value (σ : Env) (off : Nat → Int) (e : E) (t : ITy) (code : List 
 example : ∃ code, compileE exEnv.tys exOff exE = some (.i32, code) ∧ evalE exEnv exE = some (1, exEnv) ∧
     depthE exE = 2 ∧ FrameHolds exEnv exOff (depthE exE) exState :=
   ⟨_, rfl, rfl, rfl, exFrame⟩
+
+/-- **value and side effects of every expression built from literals, variables, casts, unary and binary operators, `,`,
+    `=`, the ten `op=`, prefix and postfix `++` `--` on variables, arbitrary nesting** (DESIGN `C01_value` with
+    `C01_assign`, `C01_opassign`, `C01_incdec`): if `compileX` assembles `code` of type `t` using `K` hidden temporaries
+    (the model of `gen_expr` and of the parse.c rewritings `A op= B` → `tmp = &A, *tmp = *tmp op B`, `++A` → `A += 1`,
+    `A++` → `(T)((A += 1) - 1)`), C11 defines the value `v` and the store `σ'` after `e` (`evalE`, left operand first), and
+    the operands of every binary operator are free of conflicting accesses (`noConflict`: C11 6.5p2, without which the
+    behaviour is undefined — chibicc evaluates the *right* operand first), then from every machine state whose frame
+    holds `σ` (`FrameX`: variables and temporaries pairwise disjoint at or above `%rsp`, `depthX e` free stack slots) the
+    code runs without a CPU fault, leaves `%rax` representing `v` in type `t` = the C11 type of `e`, `%rsp` / `%rbp`
+    unchanged, **the frame holding `σ'`** (every assigned variable has received exactly the C11-converted value, every
+    other variable is untouched), and no byte at or above `%rsp` outside the assigned variables and the temporaries has
+    changed.  The lvalue of `op=` / `++` / `--` is evaluated once (through the hidden pointer).
+    Not covered: `&&`, `||`, `?:` (jumps), postfix `++` `--` on `_Bool` (two temporaries), lvalues other than variables. -/
+theorem C01_value_effects (σ : Env) (off toff : Nat → Int) (e : E) (t : ITy) (code : List Ins) (K : Nat) (v : Int)
+    (σ' : Env) (m : State)
+    (hc : compileX σ.tys off toff 0 e = some (t, code, K)) (hv : evalE σ e = some (v, σ')) (hnc : noConflict e = true)
+    (hf : FrameX σ off toff K (depthX e) m) :
+    ∃ m', X86.run code m = some m' ∧ Represents t (m'.get .rax) v ∧ typeOf σ e = some t ∧
+      m'.get .rsp = m.get .rsp ∧ m'.get .rbp = m.get .rbp ∧ FrameX σ' off toff K (depthX e) m' ∧
+      (∀ a : BitVec 64, (m.get .rsp).toNat ≤ a.toNat → ¬ inVar σ.tys off (m.get .rbp) (wr e) a →
+        ¬ inTmp toff (m.get .rbp) 0 K a → m'.mem a = m.mem a) := by
+  obtain ⟨hty, hE⟩ := value_x off toff K e σ t code v σ' 0 K hc hv hnc (Nat.le_refl _)
+  obtain ⟨m', hrun, hrep, hH, hu⟩ := hE m (depthX e) _ hf.2.1 (Nat.le_refl _) hf.1 (Nat.le_refl _) hf.2.2
+  refine ⟨m', hrun, hrep, (compileX_facts σ.tys off toff e 0 t code K hc).2.2 σ rfl, hu.rsp, hu.rbp, ?_, hu.mem⟩
+  exact ⟨by rw [hu.rsp]; exact hf.1, by rw [hty, hu.rsp, hu.rbp]; exact hf.2.1, hH⟩
+
+/-- non-vacuity: `(v1 += v0, v0++ + v1)` with `signed char v0 = -3`, `unsigned v1 = 7` in a concrete frame (two hidden
+    temporaries, four stack slots): compiles, is conflict-free, has the C11 value 1 and leaves `v0 = -2`, `v1 = 4`. -/
+example : ∃ code, compileX exEnv.tys exXOff exXToff 0 exXE = some (.u32, code, 2) ∧
+    evalE exEnv exXE = some (1, ⟨[.i8, .u32], [-2, 4]⟩) ∧ noConflict exXE = true ∧ depthX exXE = 4 ∧
+    FrameX exEnv exXOff exXToff 2 (depthX exXE) exXState :=
+  ⟨_, rfl, rfl, rfl, rfl, exXFrame⟩
+
+/-- on side-effect-free expressions the two compilers coincide, so `C01_value_effects` extends `C01_value` -/
+theorem C01_value_effects_extends (tys : List ITy) (off toff : Nat → Int) (e : E) (t : ITy) (code : List Ins) (k : Nat)
+    (h : compileE tys off e = some (t, code)) : compileX tys off toff k e = some (t, code, k) :=
+  compileX_pure tys off toff e t code k h
+
+example : compileE exEnv.tys exOff exE ≠ none := by decide
 
 /-- one step on a value already in `%rax` (the fragment proved before `C01_value`; kept, now a special case): a leaf
     followed by any chain of casts and unary operators is `C01_load` / `C01_cast` / `C01_unary_full` / `C01_lognot`
